@@ -186,6 +186,8 @@ def main():
     ap.add_argument("--replay")
     ap.add_argument("--keep", action="store_true")
     ap.add_argument("--lie", default="")
+    ap.add_argument("--no-evidence", action="store_true")
+    ap.add_argument("--only-phase", default="")
     args = ap.parse_args()
     pid = args.prop
     tier = args.tier if args.tier in ("quick", "thorough") else "quick"
@@ -217,6 +219,8 @@ def main():
         else:
             for ph in plan["phases"]:
                 if ph.get("tier") and ph["tier"] != tier:
+                    continue
+                if args.only_phase and ph["name"] != args.only_phase:
                     continue
                 run_phase(ctx, ph)
             rc = conclude(ctx, plan, time.time() - t0)
@@ -459,9 +463,10 @@ def conclude(ctx, plan, wall):
     if ev["states"] < 1 or ev["transitions"] < 1:
         # no model-checking phase ran: fall back to the generic keys only
         evidence["coverage"].pop("states"); evidence["coverage"].pop("transitions")
-    os.makedirs(os.path.join(VERIF, "evidence"), exist_ok=True)
-    with open(os.path.join(VERIF, "evidence", f"{pid}.json"), "w") as f:
-        json.dump(evidence, f, indent=1)
+    if not ctx.args.no_evidence:
+        os.makedirs(os.path.join(VERIF, "evidence"), exist_ok=True)
+        with open(os.path.join(VERIF, "evidence", f"{pid}.json"), "w") as f:
+            json.dump(evidence, f, indent=1)
     log(f"{pid} {ctx.tier} seed={ctx.seed}: states={ev['states']} traces_ok={ev['traces']} deviations={len(ctx.bads)} unknown_keys={len(unknown)} wall={wall:.1f}s")
     return rc
 
